@@ -31,6 +31,7 @@ import (
 	"github.com/ethereum/go-ethereum/common"
 	"github.com/ethereum/go-ethereum/crypto"
 	"github.com/palomachain/paloma/v2/verifharness/emit"
+	palomacommon "github.com/palomachain/paloma/v2/testutil/common"
 	keeperutil "github.com/palomachain/paloma/v2/util/keeper"
 	conskeeper "github.com/palomachain/paloma/v2/x/consensus/keeper"
 	"github.com/palomachain/paloma/v2/x/consensus/keeper/consensus"
@@ -274,6 +275,9 @@ var (
 )
 
 func init() {
+	// the skyway test environment of the batch life cycles sets the chain's bech32 prefixes; set them before any address is
+	// rendered (the SDK caches rendered addresses), as the chain does at start-up
+	palomacommon.SetupPalomaPrefixes()
 	types.RegisterInterfaces(ireg)
 	evmtypes.RegisterInterfaces(ireg)
 	ireg.RegisterImplementations((*types.ConsensusMsg)(nil), &evmtypes.Message{})
